@@ -346,3 +346,77 @@ def h2_flow_session(n: int, z1: int, z3: int, chunks: int, wi: int, k: int, a0: 
     if not why and conn.sched.errors:
         why = "exception escaped a task: %r" % (conn.sched.errors[0],)
     return done(why == "", n=n, sizes=list(sizes.values()), chunks=chunks, window=window, actions=[ACTIONS[a] for a in acts], why=why)
+
+
+# ------------------------------------------------------------------ credit arriving while a write is in progress
+
+
+@harness(
+    "C09",
+    dom={"level": (0, 1), "pw": (0, 9), "parts": (1, 2), "chunks": (1, 2)},
+    split={"level": "each", "pw": "each"},
+    witnesses=[{"level": 0, "pw": 3, "parts": 1, "chunks": 1}, {"level": 1, "pw": 6, "parts": 2, "chunks": 2}],
+    budget={"quick": 120, "thorough": 600},
+    per_path=120,
+    bounds="one stream whose response exceeds the peer's credit (stream level: 300 bytes against a 100-byte stream window; connection level: 70000 bytes against the 65535-byte connection window); the peer stops reading from the server's n-th write on (n in 0..9, i.e. every write of the session incl. each DATA frame), grants the missing credit in 1 or 2 WINDOW_UPDATE frames while that write is parked, then reads again and grants nothing more",
+    encodes=["hypercorn/protocol/h2.py::H2Protocol.send_task", "hypercorn/protocol/h2.py::H2Protocol._send_data", "hypercorn/protocol/h2.py::H2Protocol._window_updated", "hypercorn/protocol/h2.py::H2Protocol._flush"],
+    stubs=["tier B runtime (writes park while the peer is not reading)", "independent h2 client that enforces flow control on what it receives"],
+)
+def h2_credit_during_write(level: int, pw: int, parts: int, chunks: int) -> bool:
+    """
+    pre: DOM(h2_credit_during_write, level=level, pw=pw, parts=parts, chunks=chunks)
+    post: _
+    """
+    enter()
+    level = conc(level, 0, 1)
+    pw = conc(pw, 0, 9)
+    parts = conc(parts, 1, 2)
+    chunks = conc(chunks, 1, 2)
+    size = 300 if level == 0 else 70000
+    body = _pattern(size, 1)
+
+    def steps_for(scope, idx):
+        st = ["recv", ("send", {"type": "http.response.start", "status": 200, "headers": []})]
+        if chunks == 1:
+            st.append(("send", {"type": "http.response.body", "body": body, "more_body": False}))
+        else:
+            st.append(("send", {"type": "http.response.body", "body": body[: size // 2], "more_body": True}))
+            st.append(("send", {"type": "http.response.body", "body": body[size // 2:], "more_body": False}))
+        return st
+
+    conn = Conn(None, make_config(), alpn="h2")
+    app = GatedApp(conn.ctx, steps_for, gated=False)
+    conn.proto.app = app
+    conn.proto.protocol.app = app
+    client = H2Client(initial_window=100 if level == 0 else 1000000, auto_ack=False)
+    client.request(1, b"GET", b"/s1", end_stream=True)
+    conn.pause_at = pw
+    conn.feed(client.take())
+    client.feed(conn.take())
+    parked = getattr(conn, "parked_writes", 0)
+    # the missing credit arrives while the server's write is parked (or, when pw is beyond the last write, afterwards)
+    missing = size - 100 if level == 0 else size - 65535 + 1000
+    incs = [missing] if parts == 1 else [missing // 2, missing - missing // 2]
+    for inc in incs:
+        client.window_update(1 if level == 0 else 0, inc)
+        conn.feed(client.take())
+        client.feed(conn.take())
+    conn.resume()
+    for _ in range(4):
+        client.feed(conn.take())
+        conn.feed(client.take())
+    conn.sched.run()
+    client.feed(conn.take())
+    st = client.streams[1]
+    why = ""
+    if client.errors:
+        why = "client-side flow-control/protocol error: %r" % (client.errors,)
+    elif st.status != 200:
+        why = f"no response head ({st!r})"
+    elif st.data != body:
+        why = f"{len(st.data)} of {size} bytes delivered although the peer granted credit for all of them"
+    elif st.ended != 1:
+        why = f"END_STREAM seen {st.ended} times"
+    elif conn.sched.errors:
+        why = "exception escaped a task: %r" % (conn.sched.errors[0],)
+    return done(why == "", level=["stream window", "connection window"][level], paused_from_write=pw, parked=parked, increments=incs, chunks=chunks, why=why)
